@@ -180,6 +180,45 @@ def _name_chain(t):
     return out
 
 
+def _name_chain_paths(fx, reader):
+    """The conversions between the text of <name> and the value the reader keeps, read off the explored paths (helpers inlined): for the
+    assignment whose value derives from NsReader::read_text, the function names on the way from the stored value down to read_text."""
+    from vlib import absint as A
+    SKIP = ("Result::map_err", "Deref::deref", "From::from", "Into::into", "BytesEnd::name", "BytesStart::to_end", "AsRef::as_ref", "Borrow::borrow", "Clone::clone")
+    chains = []
+    for p in A.Interp(fx, crates=(AC.AGENT,), max_paths=6000).explore(reader):
+        for a in p.assigns():
+            v = a[2]
+            if not A.mentions(v, lambda x: x[0] == "term" and T.short(x[1], 2) == "NsReader::read_text"):
+                continue
+            chain, x = [], v
+            for _ in range(40):
+                if x[0] == "term":
+                    f = T.short(x[1], 2)
+                    if f not in SKIP:
+                        chain.append(f)
+                    if f == "NsReader::read_text":
+                        break
+                    nxt = [y for y in x[2] if A.mentions(y, lambda z: z[0] == "term" and T.short(z[1], 2) == "NsReader::read_text")]
+                    if not nxt:
+                        break
+                    x = nxt[0]
+                elif x[0] == "adt":
+                    nxt = [y for _, y in x[3] if A.mentions(y, lambda z: z[0] == "term" and T.short(z[1], 2) == "NsReader::read_text")]
+                    if not nxt:
+                        break
+                    if not (A.is_opt(x) or A.is_res(x)):
+                        chain.append(str(x[1]).rsplit("::", 1)[-1])
+                    x = nxt[0]
+                elif x[0] in ("payload", "field"):
+                    x = x[1]
+                else:
+                    break
+            if tuple(chain) not in chains:
+                chains.append(tuple(chain))
+    return chains
+
+
 def r7_name_spaces_agree(chk, fx):
     """compare() pairs a managed policy with its installed counterpart by *name*.  The two readers that produce those names
     (Maybe<Candidate> from the running config, Maybe<Installed> from the ephemeral instance) must normalise the <name> text
@@ -193,10 +232,10 @@ def r7_name_spaces_agree(chk, fx):
         if t is None:
             raise F.AnchorLost("reader %s" % n)
         chk.analysed(n)
-        ch = _name_chain(t)
+        ch = _name_chain_paths(fx, n)
         if len(ch) != 1:
-            raise F.AnchorLost("%s: assignment of the policy name (%d found)" % (n, len(ch)))
-        rd[which] = (n, ch[0], t)
+            raise F.AnchorLost("%s: assignment of the policy name (%d different chains found)" % (n, len(ch)))
+        rd[which] = (n, (ch[0], ""), t)
     a, b = rd["Candidate"][1], rd["Installed"][1]
     chk.instance("C02/R7", "candidate and installed policy names are normalised by the same chain (%s vs %s)" % (" <- ".join(a[0]), " <- ".join(b[0])),
                  rd["Installed"][0], loc_of(rd["Installed"][2].get("sp")), holds=a[0] == b[0] and "NsReader::read_text" in a[0],
